@@ -16,6 +16,29 @@ func runC03(p *Plan) {
 		tr := r.Fork(hashStr(e.Name))
 		for _, vc := range valuesFor(p, e, tr, nRandom) {
 			ps := EnumPaths(tr, vc.v, perValue)
+			// histories on one object with a shared buffer: a bytes leaf A and another text leaf B
+			var bytesLeaves, textLeaves [][]string
+			for _, path := range ps.Paths {
+				if el, found := NavReflect(vc.v, path); found && el.Kind() != reflect.Ptr {
+					switch kindNameOf(el) {
+					case "[]byte":
+						bytesLeaves = append(bytesLeaves, path)
+						textLeaves = append(textLeaves, path)
+					case "string":
+						textLeaves = append(textLeaves, path)
+					}
+				}
+			}
+			for h := 0; h < 2 && len(bytesLeaves) > 0 && len(textLeaves) > 1; h++ {
+				a := bytesLeaves[tr.Intn(len(bytesLeaves))]
+				b := textLeaves[tr.Intn(len(textLeaves))]
+				// two spellings of one map key ("4", "0x4") denote the same element: take leaves below different
+				// top-level fields of a struct root only
+				if e.Type.Kind() == reflect.Struct && len(a) > 0 && len(b) > 0 && a[0] != b[0] {
+					OpSetHistory(p.Out, e, vc.v, a, b)
+					p.Out.Count("history:set-set-set")
+				}
+			}
 			for i, path := range ps.Paths {
 				el, found := NavReflect(vc.v, path)
 				own := ""
